@@ -43,16 +43,21 @@ func (l *JSON) Load(path string) error {
 
 // Unmarshal will decode bytes
 func (l *JSON) Unmarshal(b []byte) error {
-	if err := json.Unmarshal(b, &l.ServerConfig); err != nil {
+	// decode into a fresh value: json.Unmarshal reuses the elements of existing slices and
+	// keeps struct fields the document does not mention, so decoding into the previous
+	// configuration would merge old users and rules into the new ones
+	var c config.ServerConfig
+	if err := json.Unmarshal(b, &c); err != nil {
 		return fmt.Errorf("unable to unmarshal server config; %v", err)
 	}
-	if len(l.ServerConfig.Secrets) < 1 {
+	if len(c.Secrets) < 1 {
 		return fmt.Errorf("no secret providers were unmarshalled from config, cannot serve")
 	}
-	if len(l.ServerConfig.Users) < 1 {
+	if len(c.Users) < 1 {
 		return fmt.Errorf("no users were unmarshalled from config, cannot serve")
 	}
-	l.config <- l.ServerConfig
+	l.ServerConfig = c
+	l.config <- c
 	return nil
 }
 
